@@ -17,6 +17,9 @@ PACKAGES = {
 
 HOOK_COMMITS = ["5279cbd"]
 
+# properties whose check is finished and registered in MANIFEST.json (the integrator adds ids here)
+CLAIMED = ["C14", "C15"]
+
 # properties deliberately not claimed, with the reason (none: all 20 are meant to be claimed)
 NOT_APPLICABLE = {}
 
